@@ -50,7 +50,7 @@ def stepLine (old : Bool) (ws : List String) : Bool × String :=
     match runesOfHex name, runesOfHex ns, optInt rep, runesOfHex host, optInt port with
     | some name, some ns, some rep, some host, some port =>
       let c : OpSnapshot.ClusterSpec := { name := name, namespace_ := ns, replicas := rep, advertisedHost := host, advertisedPort := port }
-      (old, s!"deployed sts={hexOfRunes (OpSnapshot.stsName c)} svc={hexOfRunes (OpSnapshot.headlessName c)} replicas={OpSnapshot.stsReplicas c} headless={hexOfRunes (OpSnapshot.headlessName c)}")
+      (old, s!"deployed sts={hexOfRunes (OpSnapshot.stsName c)} svc={hexOfRunes (OpSnapshot.headlessName c)} replicas={OpSnapshot.stsReplicas c} headless={hexOfRunes (OpSnapshot.headlessName c)} env={hexOfRunes (OpSnapshot.headlessName c)}")
     | _, _, _, _, _ => (old, "bad-op")
   | _ => (old, "bad-op")
 
